@@ -26,6 +26,7 @@ type Op struct {
 	Ctx    bool       `json:"ctx,omitempty"`    // delegating parser.Context wrapper
 	Reader bool       `json:"reader,omitempty"` // delegating text.Reader wrapper (Parse paths)
 	Fault  *FaultPlan `json:"fault,omitempty"`
+	Aux    *Config    `json:"aux,omitempty"` // AuxConvert: configuration of the other instance
 }
 
 func (o Op) String() string {
@@ -44,6 +45,9 @@ func (o Op) String() string {
 	}
 	if o.Fault != nil {
 		s += "," + o.Fault.String()
+	}
+	if o.Aux != nil {
+		s += ",aux{" + o.Aux.Key() + "}"
 	}
 	return s + ")"
 }
@@ -88,11 +92,29 @@ type RunSpec struct {
 	SchedSeed uint64  `json:"sched_seed,omitempty"`
 	Decisions []int16 `json:"decisions,omitempty"` // worker released at each step; -1 = default rule
 
+	// ProcHist: set when the violation needs what the same OS process executed before this
+	// run (state kept at package level by the code under test); replay then re-executes the
+	// worker's run sequence FromRun..UntilRun (same seed, same shard) in a fresh process.
+	ProcHist *ProcHistory `json:"process_history,omitempty"`
+
 	Expect     *Expect  `json:"expect,omitempty"`
 	EventsSha  string   `json:"events_sha,omitempty"`
 	MinFrom    *MinFrom `json:"minimised_from,omitempty"`
 	RaceReport string   `json:"race_report,omitempty"`
 	Note       string   `json:"note,omitempty"`
+}
+
+type ProcHistory struct {
+	Tier     string `json:"tier"`
+	Shard    int    `json:"shard"`
+	Of       int    `json:"of"`
+	Runs     int    `json:"runs"`
+	FromRun  int    `json:"from_run"`
+	UntilRun int    `json:"until_run"`
+	Needed   bool   `json:"needed"` // the run alone does not reproduce in a fresh process
+	// Pristine: after the run sequence, the spec's single (configuration, document) pair is
+	// converted by a new instance in this process and compared with a fresh OS process.
+	Pristine bool `json:"pristine,omitempty"`
 }
 
 func (s *RunSpec) totalOps() int {
@@ -187,11 +209,28 @@ type Env struct {
 	p    parser.Parser
 	r    renderer.Renderer
 	docs [][]byte
+	orig [][]byte // pristine copies of docs: what the caller asked to convert
+	aux  map[string]goldmark.Markdown // other instances created during the run (AuxConvert)
 }
 
 func newEnv(cfg Config, docs [][]byte) *Env {
 	md := cfg.Build()
-	return &Env{cfg: cfg, md: md, p: md.Parser(), r: md.Renderer(), docs: docs}
+	e := &Env{cfg: cfg, md: md, p: md.Parser(), r: md.Renderer(), docs: docs}
+	e.orig = make([][]byte, len(docs))
+	for i, d := range docs {
+		e.orig[i] = append([]byte{}, d...)
+	}
+	return e
+}
+
+// pristine returns the bytes document d had when the run started. The reference model is
+// always asked about these, so a conversion that edits the caller's slice in place shows up
+// as a later conversion of "the same source" giving different bytes.
+func (e *Env) pristine(d int) []byte {
+	if d < 0 || d >= len(e.orig) {
+		return nil
+	}
+	return e.orig[d]
 }
 
 type treeHandle struct {
@@ -267,6 +306,19 @@ func execOp(e *Env, trees map[int]*treeHandle, client, idx int, op Op, y *yielde
 		res.Err = e.md.Convert(src, w, parseOpts(op, y)...)
 	case "PkgConvert":
 		res.Err = goldmark.Convert(src, w, parseOpts(op, y)...)
+	case "AuxConvert":
+		// another instance, of another configuration, living next to the one under test: it is
+		// created at its first use and kept for the rest of the run
+		if e.aux == nil {
+			e.aux = map[string]goldmark.Markdown{}
+		}
+		k := op.Aux.Key()
+		m := e.aux[k]
+		if m == nil {
+			m = op.Aux.Build()
+			e.aux[k] = m
+		}
+		res.Err = m.Convert(src, w, parseOpts(op, y)...)
 	case "Parse", "ParseOnly":
 		n := e.p.Parse(mkReader(op, src, y), parseOpts(op, y)...)
 		res.Tree = &treeHandle{node: n, doc: op.Doc, born: idx}
@@ -346,6 +398,7 @@ type refKey struct {
 }
 
 type refEntry struct {
+	cfg      Config
 	out      []byte
 	ids      []string // heading ids found in out (C15 configs only)
 	headings int      // Heading nodes in the parsed tree (C15 configs only)
@@ -391,7 +444,7 @@ func (m *RefModel) Get(cfg Config, src []byte) *refEntry {
 	}
 	m.computed++
 	out, err, pan := refCompute(cfg, src)
-	e := &refEntry{out: out}
+	e := &refEntry{out: out, cfg: cfg}
 	if err != nil || pan != "" {
 		// The reference itself failing is not something these properties decide (C01 is
 		// about totality); remember it so callers can skip the comparison.
